@@ -3,7 +3,7 @@
 (* Code -> model for the directive rows of X11.  trace.ndjson holds one    *)
 (* "Row" event per row the harness ran through the real code:              *)
 (* [t, seq, e |-> "Row", in |-> <row of TlsLoaderCfg.tla>, out |-> [err,   *)
-(* starttls, vers, ciph, curv, names]] (sets as JSON arrays).  For every   *)
+(* starttls, vers, ciph, curv, names, ccert]] (sets as arrays).  For every   *)
 (* row TLC evaluates the property predicates on the recorded answer (viol),*)
 (* compares it with the documented rule (drift) and lists the sets of open *)
 (* deviations whose as-is rule reproduces the answer (devs).               *)
@@ -15,7 +15,7 @@ CONSTANT OpenDevs
 Rws == ndJsonDeserialize("trace.ndjson")
 
 OutOf(r) == [err |-> r.out.err, starttls |-> r.out.starttls, vers |-> ToSetS(r.out.vers),
-             ciph |-> ToSetS(r.out.ciph), curv |-> ToSetS(r.out.curv), names |-> r.out.names]
+             ciph |-> ToSetS(r.out.ciph), curv |-> ToSetS(r.out.curv), names |-> r.out.names, ccert |-> r.out.ccert]
 InOf(r) == [scope |-> r.in.scope, mode |-> r.in.mode, protocols |-> r.in.protocols, ciphers |-> r.in.ciphers,
             curves |-> r.in.curves]
 DevSets == (SUBSET OpenDevs) \ {{}}
